@@ -28,12 +28,18 @@ type Weights struct {
 	MaxAuctions int
 	// ManyInstalmentsPct: chance of a long vesting schedule (up to 100 entries).
 	ManyInstalmentsPct int
+	// SnipePct: chance that a bid on a batch auction that has already been extended is a sniping
+	// bid (above every recorded price, for about the whole supply), which pushes provisional
+	// winners out of the final settlement.
+	SnipePct int
+	// DonateWaitingPct: chance that a donation goes to the selling escrow of a waiting auction.
+	DonateWaitingPct int
 }
 
 // DefaultWeights is the general mix.
 func DefaultWeights() Weights {
 	return Weights{CreateFixed: 6, CreateBatch: 8, AddAllowed: 10, UpdateAllowed: 4, PlaceBid: 30, ModifyBid: 10,
-		Cancel: 3, Donate: 4, Block: 22, UpdateParams: 2, MsgAddAllowed: 1, PerturbPct: 12, PoorPct: 15, MaxAuctions: 4, ManyInstalmentsPct: 3}
+		Cancel: 3, Donate: 4, Block: 22, UpdateParams: 2, MsgAddAllowed: 1, PerturbPct: 12, PoorPct: 15, MaxAuctions: 4, ManyInstalmentsPct: 3, SnipePct: 10, DonateWaitingPct: 15}
 }
 
 // Gen draws operations. All randomness comes from rapid draws.
@@ -686,6 +692,10 @@ func (g *Gen) genCancel(t *rapid.T, w *World, s *Snap) Op {
 func (g *Gen) genDonate(t *rapid.T, w *World, s *Snap) Op {
 	a := pick(t, "donate-auction", s.Auctions)
 	o := Op{Kind: OpDonate, Signer: Outsider, Auction: a.ID, To: pick(t, "donate-to", []string{"selling", "paying", "vesting"})}
+	if waiting := auctionsWith(s, func(x *Auc) bool { return x.Status == types.AuctionStatusStandBy }); len(waiting) > 0 && pct(t, g.W.DonateWaitingPct, "donate-waiting") {
+		a = pick(t, "donate-waiting-auction", waiting)
+		o.Auction, o.To = a.ID, "selling"
+	}
 	switch uni(t, "donate-denom", 4) {
 	case 0, 1: // the relevant denom of that escrow
 		if o.To == "selling" {
@@ -858,6 +868,20 @@ func (g *Gen) genPlaceBid(t *rapid.T, w *World, s *Snap) Op {
 			if pM.Cmp(a.MinPriceM) < 0 {
 				pM = badd(a.MinPriceM, pM)
 			}
+		}
+		if len(a.EndTimes) > 1 && len(bids) > 0 && pct(t, g.W.SnipePct, "snipe") {
+			top := bids[0].PriceM
+			for _, b := range bids {
+				if b.PriceM.Cmp(top) > 0 {
+					top = b.PriceM
+				}
+			}
+			o.Price = mstr(badd(top, bi(int64(rapid.IntRange(1, 1000).Draw(t, "snipe-eps")))))
+			o.BidType, o.CoinDenom = int32(types.BidTypeBatchMany), a.SellDenom
+			q := g.around(t, "snipe-qty", bmin(cap, a.SellAmt))
+			o.CoinAmount = q.String()
+			g.label("bid:snipe-after-extension")
+			return o
 		}
 		if g.W.Extreme && a.SellAmt.BitLen() > 150 && pct(t, 50, "extreme-bid") {
 			g.label("extreme:bid")
